@@ -488,6 +488,88 @@ def findDomain (rule opName : String) (ps : Params) (ds : List Dom) : R :=
   | "_find_domain_einsum", ds => fdEinsum ps ds
   | _, _ => .error .beyond
 
+/-! ### ProductDomain operands (`Tuple`-valued terms): domains.py:376-388, terms.py Tuple.__init__ -/
+
+/-- a funsor output domain: an array domain or `Product[d₁, …, dₙ]` (flat products of array domains) -/
+inductive Ty where
+  | arr (d : Dom)
+  | prod (args : List Dom)
+  deriving DecidableEq, Repr, Inhabited
+
+/-- Python `t[slice(a, b, c)]` on a tuple: the elements at `start + k*step`, `k < len(range(...))` -/
+def pySliceList (l : List Dom) (a b c : Option Int) : Except Err (List Dom) :=
+  match sliceIndices a b c l.length with
+  | .error e => .error e
+  | .ok (start, stop, step) =>
+    .ok ((List.range (rangeLen start stop step)).filterMap fun (k : Nat) => l[(start + (k : Int) * step).toNat]?)
+
+/-- `_find_domain_getslice`, ProductDomain branch: a 1-tuple index is unwrapped (`assert len(index) == 1`); an
+    int selects a component (Python indexing), a slice gives the sub-product, anything else raises ValueError. -/
+def fdGetsliceProduct (ps : Params) (args : List Dom) : Except Err Ty :=
+  match lookup ps "index" with
+  | Option.none => .error .key
+  | some (.index [p]) =>
+    match p with
+    | .int k => match (pyPos args.length k).bind (args[·]?) with
+      | some d => .ok (.arr d)
+      | Option.none => .error .index
+    | .slice a b c => (pySliceList args a b c).map .prod
+    | _ => .error .value
+  | some (.index _) => .error .assertion
+  | some _ => .error .value
+
+/-- `Tuple.__init__`: output `Product[arg outputs]` -/
+def tupleOutput (outs : List Dom) : Ty := .prod outs
+
+/-! ### Contraction (funsor/cnf.py:48-83): the typing rule of the normal form -/
+
+/-- `find_domain(bin_op, lhs, rhs)` for an associative `bin_op` -/
+def assocTy (op : String) (l r : Dom) : R := fdAssociative op [l, r]
+
+/-- Python `functools.reduce(f, seq[1:], seq[0])` with a raising `f` -/
+def foldTy (f : Dom → Dom → R) : Dom → List Dom → R
+  | acc, [] => .ok acc
+  | acc, x :: xs => match f acc x with
+    | .ok a => foldTy f a xs
+    | .error e => .error e
+
+/-- `reduce(f, [v.output for v in reversed(terms)])` -/
+def revFold (f : Dom → Dom → R) (outs : List Dom) : R :=
+  match outs.reverse with
+  | [] => .error .type
+  | o :: rest => foldTy f o rest
+
+/-- `Contraction.__init__`'s output: `terms[0].output` if `bin_op is ops.null`, else the reversed fold of
+    `find_domain(bin_op, ·, ·)`; the reduction does not change it. -/
+def contractionOutput (binOp : String) (outs : List Dom) : R :=
+  if binOp = "null" then (match outs with | [] => .error .index | o :: _ => .ok o)
+  else revFold (assocTy binOp) outs
+
+/-- output of the right-nested syntax tree `Binary(op, t₁, Binary(op, t₂, …))` (`Binary.__init__`) -/
+def rightNested (f : Dom → Dom → R) : List Dom → R
+  | [] => .error .type
+  | [o] => .ok o
+  | o :: rest => match rightNested f rest with
+    | .ok r => f o r
+    | .error e => .error e
+
+/-- output of the left-nested syntax tree `Binary(op, Binary(op, t₁, t₂), …)` -/
+def leftNested (f : Dom → Dom → R) : List Dom → R
+  | [] => .error .type
+  | o :: rest => foldTy f o rest
+
+/-- `OrderedDict.update` on the key order: keys of `a`, then the new keys of `b` -/
+def unionNames (a b : List String) : List String := a ++ b.filter (fun k => !a.contains k)
+
+/-- `Contraction.__init__`'s inputs (names, in order): each term's inputs minus the bound names, merged -/
+def contractionInputs (bound : List String) (termInputs : List (List String)) : List String :=
+  termInputs.foldl (fun acc t => unionNames acc (t.filter fun k => !bound.contains k)) []
+
+/-- inputs of `Reduce(red_op, Binary(op, t₁, Binary(op, t₂, …)), bound)`: `Binary.__init__` merges, `Reduce.__init__`
+    removes the reduced names -/
+def nestedInputs (bound : List String) (termInputs : List (List String)) : List String :=
+  (termInputs.foldr unionNames []).filter fun k => !bound.contains k
+
 /-! ## numpy result-shape specification -/
 
 /-- numpy's rule for one pair of aligned dimensions. -/
